@@ -58,7 +58,7 @@ func batchNames(u *universe) []string {
 			bs = append(bs, "json/"+t.name)
 		}
 	}
-	return append(bs, "prim/0", "stream/0", "util/0")
+	return append(bs, "prim/0", "stream/0", "util/0", "long/stream", "long/prim", "long/serix", "long/json")
 }
 
 // validEncodings produces up to n distinct valid encodings of t (deterministic in rng).
@@ -218,6 +218,8 @@ func genBatch(c *vf.Ctx, u *universe, name string) []Case {
 				out = append(out, mkCase("json", t.name, false, full[:rng.Intn(len(full))], "syntax-trunc#r"))
 			}
 		}
+	case "long":
+		out = genLongCases(c, u, tn)
 	case "prim":
 		out = genPrimCases(c.Rand("prim"), sz.scale)
 	case "stream":
@@ -239,6 +241,9 @@ type calib struct {
 	MaxAllocNonViol    uint64  `json:"max_alloc_any_nonviolating_call"`
 	MaxItersPerByteNum int     `json:"max_iters"`
 	MaxAllocCase       string  `json:"max_alloc_case,omitempty"`
+	// long inputs (>= 4 KiB): largest allocation per input byte of non-violating calls, per family / element-wise
+	LongPerByte map[string]float64 `json:"long_input_max_alloc_per_byte,omitempty"`
+	LongMaxOver map[string]uint64  `json:"long_input_max_alloc,omitempty"`
 }
 
 func runCase(c *vf.Ctx, r *runner, cs *Case, cal *calib, perFP map[string]int) {
@@ -266,6 +271,28 @@ func runCase(c *vf.Ctx, r *runner, cs *Case, cal *calib, perFP map[string]int) {
 	if o.iters > 0 {
 		c.Count("calls_with_counted_element_decodes", 1)
 		c.Count("counted_element_decodes", o.iters)
+	}
+	if l >= longMin {
+		c.Count("long_input_cases:"+cs.Fam, 1)
+		c.Count("long_input_"+out+":"+cs.Fam, 1)
+		if cs.Rd > 0 {
+			c.Count("long_input_chunked_reader_cases", 1)
+		}
+		if len(vs) == 0 && !o.errWrapOnly {
+			key := cs.Fam
+			if cs.K > longK {
+				key += "/element-wise"
+			}
+			if cal.LongPerByte == nil {
+				cal.LongPerByte, cal.LongMaxOver = map[string]float64{}, map[string]uint64{}
+			}
+			if r := float64(o.alloc) / float64(l); r > cal.LongPerByte[key] {
+				cal.LongPerByte[key] = r
+			}
+			if o.alloc > cal.LongMaxOver[key] {
+				cal.LongMaxOver[key] = o.alloc
+			}
+		}
 	}
 	c.Count("mutation:"+cs.kind(), 1)
 	for _, cl := range []string{"hexlen", "numstr", "hexform", "long"} {
@@ -423,6 +450,17 @@ func mergeCal(res *vf.ChildResult) {
 			calAll.MaxAllocNonViol = k.MaxAllocNonViol
 			calAll.MaxAllocCase = k.MaxAllocCase
 		}
+		for key, v := range k.LongPerByte {
+			if calAll.LongPerByte == nil {
+				calAll.LongPerByte, calAll.LongMaxOver = map[string]float64{}, map[string]uint64{}
+			}
+			if v > calAll.LongPerByte[key] {
+				calAll.LongPerByte[key] = v
+			}
+			if k.LongMaxOver[key] > calAll.LongMaxOver[key] {
+				calAll.LongMaxOver[key] = k.LongMaxOver[key]
+			}
+		}
 		if k.MaxItersPerByteNum > calAll.MaxItersPerByteNum {
 			calAll.MaxItersPerByteNum = k.MaxItersPerByteNum
 		}
@@ -502,7 +540,7 @@ func run(c *vf.Ctx) {
 		replay(c)
 		return
 	}
-	c.SetRule("each evaluation is one call of a decoder entry point (serix.Decode into one of ~55 registered destination types incl. ds.Set/SerializableOrderedMap.Decode; JSONDecode/MapDecode; 19 Deserializer primitives and chains of them; 10 stream Read* helpers; typeutils) on one input, in a GOMAXPROCS=1 child under ulimit -v, observed by recover, returned (n, err), MemStats.TotalAlloc delta and a count of element-decoder invocations. Binary inputs: seeded valid encodings, every truncation, 8/16/32-bit substitution of {0,1,2,3,±1,0x7f..,0xff..,2^28,…} at every (sampled above 40/120 bytes) offset, bit flips, splices, insert/delete, random strings 0–64 bytes; JSON: every node of every valid document replaced by every other JSON kind and by out-of-range/fractional/negative numbers and bad hex / numeric strings; every string node additionally by well-formed 0x-hex decoding to 0, 1, N-1, N+1, 2N, 1000 (and 3/5/9/31/33) bytes where N is the original decoded length, by numeric-string spellings (too many digits, leading zeros, signs, exponent, blanks, int64/uint64 borders), by hex-form ambiguities (no prefix, odd digits, upper case, 256/257-bit quantities) and, in the first document of each target, by 64 KiB strings (plain, digits, valid hex); every member removed, extra members; all x validation on/off. distinct_nontrivial counts distinct (family, target, validation, mutation kind, outcome class) tuples, outcome class = accepted | panic | root error message with numbers stripped – i.e. distinct decoder behaviours actually reached per target and mutation")
+	c.SetRule("each evaluation is one call of a decoder entry point (serix.Decode into one of ~55 registered destination types incl. ds.Set/SerializableOrderedMap.Decode; JSONDecode/MapDecode; 19 Deserializer primitives and chains of them; 10 stream Read* helpers; typeutils) on one input, in a GOMAXPROCS=1 child under ulimit -v, observed by recover, returned (n, err), MemStats.TotalAlloc delta and a count of element-decoder invocations. Binary inputs: seeded valid encodings, every truncation, 8/16/32-bit substitution of {0,1,2,3,±1,0x7f..,0xff..,2^28,…} at every (sampled above 40/120 bytes) offset, bit flips, splices, insert/delete, random strings 0–64 bytes; JSON: every node of every valid document replaced by every other JSON kind and by out-of-range/fractional/negative numbers and bad hex / numeric strings; every string node additionally by well-formed 0x-hex decoding to 0, 1, N-1, N+1, 2N, 1000 (and 3/5/9/31/33) bytes where N is the original decoded length, by numeric-string spellings (too many digits, leading zeros, signs, exponent, blanks, int64/uint64 borders), by hex-form ambiguities (no prefix, odd digits, upper case, 256/257-bit quantities) and, in the first document of each target, by 64 KiB strings (plain, digits, valid hex); every member removed, extra members; all x validation on/off. Long inputs for every family (stream helpers through plain, one-byte, 4096- and 4097-byte-chunk readers; Deserializer byte-slice/string/sequence/payload primitives; serix []byte/string/[]uint16/map/[]custom destinations with uint16/uint32 prefixes; JSON strings): 4 KiB, 4 KiB+1, 8 KiB, 64 KiB and 1 MiB of real data behind a prefix denoting exactly the data, data±1, 2x, 2^28, 2^31, the maximum of the width and (uint64) 2^40, 2^63-1, 2^63; for these the allocation bound is additionally capped at 16 MiB + K*len (K=16, element-wise serix 64; measured maxima in calibration). distinct_nontrivial counts distinct (family, target, validation, mutation kind, outcome class) tuples, outcome class = accepted | panic | root error message with numbers stripped – i.e. distinct decoder behaviours actually reached per target and mutation")
 	u := newUniverse()
 	bs := batchNames(u)
 	if only := os.Getenv("C02_ONLY"); only != "" { // debugging aid: restrict to batches with this prefix
@@ -528,7 +566,7 @@ func run(c *vf.Ctx) {
 	})
 	c.Count("batches", len(bs))
 	c.Extra("calibration", calAll)
-	c.Extra("alloc_bound", fmt.Sprintf("%d + %d*len(input)", allocBase, allocPerByte))
+	c.Extra("alloc_bound", fmt.Sprintf("min(%d + %d*len(input), for len >= %d: %d + K*len(input) with K=%d byte-wise, K=%d element-wise serix)", allocBase, allocPerByte, longMin, longBase, longK, kElem))
 	c.SetExhaustive(false)
 	c.Require("evaluations", c.Pick(100000, 2000000))
 	c.Require("accepted", 3000)
@@ -540,6 +578,13 @@ func run(c *vf.Ctx) {
 	c.Require("numstr_mutants_tried", 3000)
 	c.Require("hexform_mutants_tried", 2000)
 	c.Require("long_mutants_tried", 100)
+	c.Require("long_input_cases:stream", 1000)
+	c.Require("long_input_cases:prim", 400)
+	c.Require("long_input_cases:serix", 300)
+	c.Require("long_input_cases:json", 300)
+	c.Require("long_input_chunked_reader_cases", 800)
+	c.Require("long_input_accepted:stream", 50)
+	c.Require("long_input_accepted:serix", 20)
 	c.Require("calls:prim", 5000)
 	c.Require("calls:stream", 3000)
 	c.Require("calls:util", 100)
